@@ -279,6 +279,11 @@ func (t *collationSortedTree[K, V]) Prefix(p K) iter.Seq2[K, V] {
 
 	keyS, colKey := t.cok.Transform(p)
 
+	// only the primary weights of p are shared by the keys it prefixes
+	if i := bytes.Index(colKey, []byte{0, 0}); i != -1 {
+		colKey = colKey[:i]
+	}
+
 	root := t.root
 	if t.root.pointer != nil {
 		root = lowestCommonParent[V, *collateLeafNode[V]](root, colKey)
